@@ -13,8 +13,9 @@
 (*   does not, "ProvNoSync" provides it but is not Sync, "ProvNoSend"      *)
 (*   provides it, is Sync but not Send                                     *)
 (* C07 program: [nmeth, params, async, kind \in {"static","dyn"},          *)
-(*               depbounds \in 0..2]                                       *)
-(*   targets X1, X2 (same method names); applications A -> X1, B -> X2,    *)
+(*               depbounds \in 0..2, target \in {"unit","generic"}]        *)
+(*   targets X1, X2 (same method names; "generic": two instantiations      *)
+(*   X<P1>, X<P2> of ONE generic type); applications A -> X1, B -> X2,     *)
 (*   "NoSel" selects nothing                                               *)
 (***************************************************************************)
 EXTENDS TLC, Sequences, Naturals, FiniteSets
